@@ -121,8 +121,11 @@ def build_jobs(base, wl, tier, cfg, log):
     for inp, recs, n, _ in [(c[0], c[1], c[2], None) for c in chosen] + \
             [(m[0], m[1], m[2], None) for m in multis]:
         fid = inp['id']
-        census = not M.multi_conformation(recs)
-        files[fid] = {'text': inp['text'], 'stem': inp['stem'], 'census': census}
+        # multi-conformation files take part in the census too: a group is
+        # expected iff every record that defines it (in any conformation)
+        # survives and the complete file reports it (base pass)
+        files[fid] = {'text': inp['text'], 'stem': inp['stem'], 'census': True,
+                      'multiconf': M.multi_conformation(recs)}
         faults = M.enumerate_faults(n, tier, rng, M.residue_bounds(recs))
         exhaustive[fid] = {'records': n, 'F1': True, 'F2': True, 'F4': True,
                            'F3': tier['f3'] == 'all', 'F6': tier['f6'] == 'all',
@@ -144,7 +147,7 @@ def build_jobs(base, wl, tier, cfg, log):
                 continue
             fid = inp['id']
             files[fid] = {'text': inp['text'], 'stem': inp['stem'],
-                          'census': not M.multi_conformation(recs)}
+                          'census': True}
             b = M.residue_bounds(recs)
             fl = [('F1', k) for k in b[1:-1]] + [('F4', k) for k in b[1:-1]]
             pairs = [(b[i], b[j]) for i in range(len(b)) for j in range(i + 1, len(b))
@@ -188,8 +191,13 @@ def literal_failure(text, stem, delivery, options, expected_pairs, sc, suffix='.
     keep_protons = '-k' in options
     expect_error = M.usable_records(recs, cfg, keep_protons) == 0
     lines = set(text.splitlines())
-    expected = None if (expect_error or delivery == 'cli') else [
-        l for l, line in expected_pairs if line in lines]
+    expected = None
+    if not (expect_error or delivery == 'cli'):
+        gone = set(l for l, line in expected_pairs if line not in lines)
+        expected = []
+        for l, line in expected_pairs:
+            if l not in gone and l not in expected:
+                expected.append(l)
     code = (
         'import json,sys\n'
         'from sim import c12_worker as W, c12_model as M\n'
